@@ -10,8 +10,12 @@ func init() { Scenarios["C18"] = c18 }
 
 // C15 is an addition to the families the property names: its concurrent part consumes query
 // plans on several tasks while membership events are applied, the access pattern of requests in
-// flight during a topology change, at a fraction of the cost of a full proxy run.
-var c18Families = []string{"C01", "C07", "C08", "C14", "C16", "C02", "C01", "C07", "C15", "C16"}
+// flight during a topology change, at a fraction of the cost of a full proxy run. C19 adds the
+// Astra endpoint code (certificate verification callbacks shared by the concurrent handshakes
+// of one endpoint), C10 the code that answers system.local and system.peers for several clients
+// of one proxy (those requests involve no shared lock of the forwarding path, so nothing orders
+// the client goroutines by accident).
+var c18Families = []string{"C01", "C07", "C08", "C14", "C16", "C02", "C01", "C07", "C15", "C16", "C19", "C10"}
 
 // C18 — concurrent operation is free of data races. The scenario families of C01, C02, C07,
 // C08, C14 and C16 run under the deterministic scheduler in a -race build in which the
